@@ -607,6 +607,12 @@ func ruleC14Immediate(c *Ctx) {
 			}
 		}
 		if p.Ret[0].C == nil {
+			// library form: return slices.Contains(immediateFunctions, strings.ToLower(name))
+			if a, isLib := callArgs(p.Ret[0].T, "slices.Contains"); isLib && len(a) == 2 && strings.Contains(a[0].String(), "immediateFunctions") && strings.HasPrefix(a[1].String(), "strings.ToLower(p:") && len(p.Order) == 0 {
+				nT++
+				nF++
+				continue
+			}
 			ok, why = false, "returns "+avString(p.Ret[0])
 			continue
 		}
